@@ -39,8 +39,7 @@ func c12(c *Ctx) {
 	o := gen.Opts{ObjRefs: true, ClassExprs: true, AttributesCmd: true, NonASCII: false, MaxDepth: 3, FailSites: true, RenderHeavy: true}
 	var cases []*RenderCase
 	nTied := c.N(2, 30)
-	// further files use `- switch` / `- case` / `- default` blocks: the run-time model has no switch statement, so
-	// these are judged by the oracle only (the code emitted for them is tied by the compile-level checks)
+	// further files use `- switch` / `- case` / `- default` blocks
 	for i := 0; i < nTied+c.N(1, 10); i++ {
 		if i == nTied {
 			o.Switch = true
@@ -77,7 +76,7 @@ func c12(c *Ctx) {
 	}
 	c.renderBoth(cases)
 	c.featDist(cases)
-	c.tieRender(cases[:nTied], true)
+	c.tieRender(cases, true)
 	for _, rc := range cases {
 		c.dist("stage." + rc.Stage)
 		if rc.Stage != "ok" {
@@ -195,8 +194,8 @@ func c13(c *Ctx) {
 			big.S0 = strings.Repeat("0123456789abcdef", 6000) // 96 KB
 			big.Xs = nil
 			// (its maps have several entries each)
-			big.M0 = map[string]string{"data-a": "1", "title": "t", "x": "y", "a b": "z", "lang": "en"}
-			big.MB = map[string]bool{"on": true, "hidden": true, "c1": true, "z": true, "off": false}
+			big.M0 = map[string]string{"data-a": "1", "title": "t", "x": "y", "a b": "z", "lang": "en", "empty": ""}
+			big.MB = map[string]bool{"on": true, "hidden": true, "c1": true, "z": true, "off": false, "On": true, "ON": true, "Hidden": true}
 			for k := 0; k < 300; k++ {
 				big.Xs = append(big.Xs, "row")
 			}
